@@ -18,7 +18,12 @@ def run(ctx):
         # the claim is about the value with caching neutralised: specs ending in x
         return dv["field"] in ("best_move", "score", "engine-panic", "model-setup", "engine-setup-panic") and \
             (dv.get("spec") or "x").endswith("x")
-    r = SP.corr(ctx, prop, ("value", "material"), relevant, "cache-off search result differs from the model (which equals the negamax value V by theorem C11_search)", violations, cov)
+    def internal(case, dv):
+        # the root VALUE is fixed by the property (model = V by C11_search); which of several moves attaining it is chosen is not:
+        # the chosen move is judged against V itself below
+        return dv["field"] in ("best_move", "model-setup")
+    r = SP.corr(ctx, prop, ("value", "material"), relevant, "cache-off search result differs from the model (which equals the negamax value V by theorem C11_search)", violations, cov,
+                internal=internal)
     # reference value V evaluated in Coq directly against the engine's results (validates the
     # theorem's statement on real positions and is the witness search if anything above broke)
     if r is not None:
